@@ -6,7 +6,8 @@ package main
 //
 //	<rows>    dataset (see c02_c19_common.go)
 //	<filter>  true | null.<f> | notnull.<f> | cmp.<f>.<op>.<const>
-//	<sort>    - | <field><dir>,...      dir: + ASC, - DESC, ~ no keyword
+//	<sort>    - | <field><dir>,...      dir: + ASC, - DESC, ~ no keyword, ^ asc, * desc, ! DeSc; <field> may be an alias
+//	          name of a stored field (pgAliases: keyword-like symbol names)
 //	<skip>    - | <int64> | x (a non-integer NUMBER) | big (an integer beyond int64)
 //	<limit>   - | <int64> | none | x | big
 //	<prov>    - | all[.<r>..] | any[.<r>..] | val.<r> | rel.<owner> | nil     cursor provider for QueryWithCursorC:
@@ -386,6 +387,27 @@ func c02GenOddSorts(r *rng, out *bufio.Writer, nData, perData int) {
 	}
 }
 
+// ---- keyword-like symbol names (aliases of the stored fields) in sort lists and filters
+
+func c02GenAliases(r *rng, out *bufio.Writer, nData, perData int) {
+	for d := 0; d < nData; d++ {
+		n := 1 + r.intn(7)
+		ds := pgGenRows(r, n)
+		sp, lp := pgSkipPool(n), pgLimitPool(n)
+		for k := 0; k < perData; k++ {
+			skip, limit := "-", "-"
+			if r.chance(1, 3) {
+				skip, limit = pgPickPaging(r, sp, n, false), pgPickPaging(r, lp, n, true)
+			}
+			filter := "true"
+			if r.chance(1, 3) {
+				filter = pgAliasFilter(r)
+			}
+			c02Emit(out, ds, filter, pgGenAliasSort(r), skip, limit, "-", "-", pick(r, []string{"root", "root", "child", "ext"}))
+		}
+	}
+}
+
 func c02Gen(tier string, seed uint64, out *bufio.Writer) {
 	r := newRng(seed)
 	nData, perData := 300, 80
@@ -424,9 +446,11 @@ func c02Gen(tier string, seed uint64, out *bufio.Writer) {
 	if tier == "thorough" {
 		c02GenMixed(newRng(seed^0xC02A), out, 2400, 30)
 		c02GenOddSorts(newRng(seed^0xC02B), out, 600, 30)
+		c02GenAliases(newRng(seed^0xC02C), out, 600, 30)
 	} else {
 		c02GenMixed(newRng(seed^0xC02A), out, 160, 25)
 		c02GenOddSorts(newRng(seed^0xC02B), out, 60, 30)
+		c02GenAliases(newRng(seed^0xC02C), out, 60, 30)
 	}
 	if tier == "thorough" {
 		// bounded-exhaustive: n <= 6 rows x every skip/limit pool pair x 1-2 sort fields
